@@ -583,6 +583,10 @@ def _install_third_party():
 _install_third_party()
 
 
+class _SplitList(SList):
+    """result of str.split(sep) on a symbolic string: only element 0 is known"""
+
+
 # ---- methods of built-in types ---------------------------------------------------------------------------------------
 
 def call_method(I, recv, name, args, kwargs):
@@ -641,6 +645,15 @@ def call_method(I, recv, name, args, kwargs):
                     parts.append(recv)
                 parts.append(x)
             return I.concat(parts) if parts else ""
+        if name == "split" and len(args) == 1 and isinstance(args[0], str) and len(args[0]) >= 1:
+            sep = z3.StringVal(args[0])
+            head = z3.Function("str_before_first", z3.StringSort(), z3.StringSort(), z3.StringSort())(t, sep)
+            I.fact(z3.Implies(z3.Not(z3.Contains(t, sep)), head == t))
+            I.fact(z3.Implies(z3.Contains(t, sep), z3.And(z3.PrefixOf(z3.Concat(head, sep), t), z3.Not(z3.Contains(head, sep)))))
+            tail = SOpaque("rest of split")
+            lst = SList([SStr(head)])
+            lst.items_after_first_unknown = True
+            return _SplitList([SStr(head)])
         if name == "encode" and not args:
             return SObj(bytes, {"__encoded__": recv})
         if name in ("strip", "lstrip", "rstrip", "split", "title", "capitalize", "encode"):
